@@ -28,27 +28,28 @@ type LoopContract struct {
 
 // Contract is everything declared under one "//@ func" header.
 type Contract struct {
-	Key       string
-	Requires  []*Clause
-	Ensures   []*Clause
-	Modifies  *Clause // nil = may modify the whole heap
-	Loops     map[int]*LoopContract
-	Pure      bool // callers may inline the body as a spec function
-	Trusted   bool // contract assumed, body not verified (external or out-of-subset)
-	Inline    bool // callers inline the body instead of using the contract
-	NoSafety  bool // do not generate no-panic obligations (for spec helpers)
+	Key        string
+	Requires   []*Clause
+	Ensures    []*Clause
+	Modifies   *Clause // nil = may modify the whole heap
+	Loops      map[int]*LoopContract
+	Pure       bool // callers may inline the body as a spec function
+	Trusted    bool // contract assumed, body not verified (external or out-of-subset)
+	Inline     bool // callers inline the body instead of using the contract
+	NoSafety   bool // do not generate no-panic obligations (for spec helpers)
 	SafetyOnly bool
-	Props     []string
-	Assumes   []string // free-text assumptions to be listed in evidence
-	File      string
-	Line      int
-	Used      bool
-	Region    *RegionSpec
-	Ghost     []*Clause // ghost updates performed by a call: "ghost name += expr"
-	Axiom     bool
-	Lemma     bool
-	Vars      []string // lemma: "name type" universally quantified variables
-	Calls     []string // for documentation
+	Props      []string
+	Assumes    []string // free-text assumptions to be listed in evidence
+	File       string
+	Line       int
+	Used       bool
+	Region     *RegionSpec
+	Ghost      []*Clause // ghost updates performed by a call: "ghost name += expr"
+	Axiom      bool
+	Lemma      bool
+	Vars       []string // lemma: "name type" universally quantified variables
+	Calls      []string // for documentation
+	Observes   []string // expressions whose values counterexamples report
 }
 
 type RegionSpec struct {
@@ -61,7 +62,7 @@ type RegionSpec struct {
 
 var clauseKeywords = map[string]bool{"func": true, "requires": true, "ensures": true, "modifies": true, "loop": true,
 	"pure": true, "trusted": true, "inline": true, "nosafety": true, "props": true, "assume": true, "region": true,
-	"from": true, "to": true, "ghost": true, "lemma": true, "vars": true, "safetyonly": true, "field": true, "monitor": true, "end": true}
+	"from": true, "to": true, "ghost": true, "lemma": true, "vars": true, "safetyonly": true, "field": true, "monitor": true, "end": true, "observe": true}
 
 type rawLine struct {
 	text string
@@ -212,6 +213,8 @@ func ParseContractFile(path string) ([]*Contract, []*Decl, error) {
 			cur.Props = append(cur.Props, fields[1:]...)
 		case "assume":
 			cur.Assumes = append(cur.Assumes, rest)
+		case "observe":
+			cur.Observes = append(cur.Observes, rest)
 		case "vars":
 			for _, v := range splitTopLevel(rest, ',') {
 				cur.Vars = append(cur.Vars, strings.TrimSpace(v))
